@@ -29,4 +29,15 @@ def index? {α : Type} (l : List α) (i : Int) : Option α :=
     (if i + l.length < 0 then none else l[(i + l.length).toNat]?)
   else l[i.toNat]?
 
+/-- `str.replace(a, b)` for a non-empty pattern `a`: leftmost, non-overlapping occurrences.
+Structural on the character list (after a match the next `a.length - 1` characters are
+skipped) so that it reduces in the kernel; `String.replace` does not. -/
+def replaceAux (a b : List Char) : Nat → List Char → List Char
+  | _, [] => []
+  | skip + 1, _ :: cs => replaceAux a b skip cs
+  | 0, c :: cs =>
+    if a.isPrefixOf (c :: cs) then b ++ replaceAux a b (a.length - 1) cs else c :: replaceAux a b 0 cs
+
+def pyReplace (s a b : String) : String := String.ofList (replaceAux a.toList b.toList 0 s.toList)
+
 end NirVerif.Py
